@@ -434,6 +434,16 @@ func (fc *FuncCtx) ap0(v ssa.Value) string {
 					return fc.AP(sv)
 				}
 			}
+			// a field of a local struct whose only assignment is one whole-struct literal: named by what the literal gives it
+			if fa, ok := x.X.(*ssa.FieldAddr); ok {
+				if al, ok := fa.X.(*ssa.Alloc); ok && al.Referrers() != nil {
+					if sv, _ := fieldOnlyStore(x); sv != nil && (carriedValueType(x.Type()) || carrierStruct(al.Type())) {
+						if _, isConst := sv.(*ssa.Const); !isConst {
+							return fc.AP(sv)
+						}
+					}
+				}
+			}
 			if al, ok := x.X.(*ssa.Alloc); ok {
 				if sv := fc.singleStore(al, x); sv != nil {
 					return fc.AP(sv)
@@ -992,7 +1002,11 @@ func (fc *FuncCtx) inlinedResultAP(c *ssa.Call, idx int) string {
 		if isNilConst(v) {
 			continue
 		}
-		if _, ok := v.(*ssa.Alloc); !ok {
+		switch v.(type) {
+		case *ssa.Alloc:
+		case *ssa.Call:
+			// the object a constructor call made in the helper (doc := etree.NewDocument(); ...; return doc, nil)
+		default:
 			return ""
 		}
 		s := sub.AP(v)
@@ -1262,4 +1276,28 @@ func partWritten(addr ssa.Value, depth int) bool {
 		}
 	}
 	return false
+}
+
+// carriedValueType: a value a local struct merely carries from one place to another (a flag, an error, a string, an
+// instant), as opposed to a container or object that is built up through the field (map, slice, pointer, channel, func).
+func carriedValueType(t types.Type) bool {
+	switch t.Underlying().(type) {
+	case *types.Map, *types.Slice, *types.Pointer, *types.Chan, *types.Signature:
+		return false
+	}
+	return true
+}
+
+// carrierStruct: t is (a pointer to) an unexported named struct type of the module: a bundle a function uses to carry a few
+// values between its steps (cbcCipherValue{iv, body}), not a type of the API that is built up field by field.
+func carrierStruct(t types.Type) bool {
+	if pt, ok := t.Underlying().(*types.Pointer); ok {
+		t = pt.Elem()
+	}
+	nm, ok := t.(*types.Named)
+	if !ok || nm.Obj().Exported() || nm.Obj().Pkg() == nil || !strings.HasPrefix(nm.Obj().Pkg().Path(), modPath) {
+		return false
+	}
+	_, isStruct := nm.Underlying().(*types.Struct)
+	return isStruct
 }
